@@ -74,6 +74,7 @@ package fiber
 // assumed for them: the scratch byte buffer of the bracket rewriting (E_uint8) and, when the handler switched this context's
 // binder to WithAutoHandling and binding fails, the response status (sentStatus))
 //@   modifies r.messages, elems(r.messages), DefaultCtx.bind, heap(MD_string_string), heap(MV_string_string), heap(E_uint8), sentStatus
+//@   modifies heap(H_binder_QueryBinding_EnableSplitting), heap(H_binder_FormBinding_EnableSplitting)
 //@   loop 1
 //@     invariant earlier-kept: len(r.messages) >= old(len(r.messages)) && forall(k, 0, old(len(r.messages)), r.messages[k].key == old(r.messages[k].key) && r.messages[k].value == old(r.messages[k].value) && r.messages[k].level == old(r.messages[k].level) && r.messages[k].isOldInput == old(r.messages[k].isOldInput))
 //@     invariant added-are-old-input: forall(k, old(len(r.messages)), len(r.messages), r.messages[k].isOldInput && r.messages[k].level == 0)
@@ -146,8 +147,9 @@ package fiber
 //@   ensures nothing-to-send-no-cookie: old(len(r.messages)) == 0 ==> jarHas == old(jarHas) && jarVal == old(jarVal) && jarAttr == old(jarAttr)
 //@ func (*Redirect).Back
 //@   ensures redirected-implies-flash-issued: result == nil ==> called((*Redirect).To)
+// (round B, C07 sweep: the safety obligations of the body - config[0] behind len(config) > 0 - are no longer switched off)
 //@ func (*Redirect).Route
-//@   nosafety bounds assert   // route-name lookup and query-string assembly are not part of C12
+//@   props C12 C07
 //@   ensures redirected-implies-flash-issued: result == nil ==> called((*Redirect).To)
 
 // ---------------------------------------------------------------------------------------------
@@ -309,5 +311,4 @@ package fiber
 // (*DefaultCtx).Cookies (`ensures [C12] from-request`) and App.getBytes (`ensures str(result) == arg0`) are
 // contracted in zz_contracts_c06_verif.go; (*DefaultCtx).Bind and (*DefaultCtx).Redirect in zz_contracts_c05_verif.go.
 // needed by To: frame (writes the response status only); setCanonical is `pure` in zz_contracts_c07_verif.go
-//@ func (*DefaultCtx).Status assumed
-//@   modifies sentStatus
+// (*DefaultCtx).Status: checked contract in zz_contracts_rootassumed_verif.go (round B; it was assumed here).
